@@ -37,6 +37,8 @@ func init() {
 		Old: "\t\t\tvectors[batchIndex].SampleIDs = append(vector.SampleIDs[:0], 0)\n", New: "", Expect: "functionOperator"})
 	mutant(Mutant{Rule: "R-ONEPERSTEP", Name: "vector-per-group", File: "execution/aggregate/khashaggregate.go",
 		Old: "\t\th.entries = h.entries[:0]\n\t}\n\t*result = append(*result, s)\n", New: "\t\th.entries = h.entries[:0]\n\t\t*result = append(*result, s)\n\t}\n", Expect: "kAggregate"})
+	mutant(Mutant{Rule: "R-ONEPERSTEP", Name: "no-vector-for-k-below-one", File: "execution/aggregate/khashaggregate.go",
+		Old: "\tif k < 1 {\n\t\t*result = append(*result, a.vectorPool.GetStepVector(t))\n\t\treturn\n\t}", New: "\tif k < 1 {\n\t\treturn\n\t}", Expect: "kAggregate"})
 	mutant(Mutant{Rule: "R-SENTINEL", Name: "instant-function-ignores-sentinel", File: "execution/function/operator.go",
 		Old: "\t\t\tif result.Point == InvalidSample.Point {\n\t\t\t\tcontinue\n\t\t\t}\n", New: "", Expect: "functionOperator"})
 	mutant(Mutant{Rule: "R-KERNELBOUNDS", Name: "irate-single-point", File: "execution/function/functions.go",
@@ -297,6 +299,48 @@ func ruleOnePerStep(p *core.Program) []core.Obligation {
 				obs = append(obs, core.Ob(rule, key, p.Pos(ins.Pos()), core.FuncName(fn), core.Held, fmt.Sprintf("loop depth %d, guarded by `len(batch) <= step index`", total)))
 			default:
 				obs = append(obs, core.Ob(rule, key, p.Pos(ins.Pos()), core.FuncName(fn), core.Violated, fmt.Sprintf("the append sits in %d nested loops: the batch gets several step vectors per step (or none when the inner loop is empty) and consumers that pair batches by position are misaligned", total)))
+			}
+		})
+	}
+	// helpers that are called once per step (depth 0 here, depth 1 at the caller) must append on every path
+	for _, fn := range p.Funcs {
+		if fn.Parent() != nil || fn.Name() == "Next" {
+			continue
+		}
+		var appends []*ssa.Call
+		core.EachInstr(fn, func(b *ssa.BasicBlock, i int, ins ssa.Instruction) {
+			if call, ok := ins.(*ssa.Call); ok {
+				if bi, ok := call.Call.Value.(*ssa.Builtin); ok && bi.Name() == "append" && isBatchType(call.Type()) && depthOf(fn, b) == 0 {
+					appends = append(appends, call)
+				}
+			}
+		})
+		if len(appends) == 0 {
+			continue
+		}
+		up, ok := callerDepth(fn, map[*ssa.Function]bool{})
+		if !ok || up != 1 {
+			continue
+		}
+		// every normal return must be dominated by exactly one of the appends
+		k := 0
+		core.EachInstr(fn, func(b *ssa.BasicBlock, i int, ins ssa.Instruction) {
+			ret, ok := ins.(*ssa.Return)
+			if !ok || b == fn.Recover {
+				return
+			}
+			k++
+			n := 0
+			for _, a := range appends {
+				if core.InstrDominates(a, ret) {
+					n++
+				}
+			}
+			key := fmt.Sprintf("%s (called once per step) return #%d appends one step vector", core.FuncName(fn), k)
+			if n == 1 {
+				obs = append(obs, core.Ob(rule, key, p.Pos(ret.Pos()), core.FuncName(fn), core.Held, "exactly one append dominates the return"))
+			} else {
+				obs = append(obs, core.Ob(rule, key, p.Pos(ret.Pos()), core.FuncName(fn), core.Violated, fmt.Sprintf("%d appends dominate this return: the step gets no (or more than one) step vector and the batch shifts relative to the sibling operators", n)))
 			}
 		})
 	}
@@ -1079,6 +1123,128 @@ func ruleUseAfterPut(p *core.Program) []core.Obligation {
 	return obs
 }
 
+func init() {
+	register(&Rule{ID: "R-PUTORDER", Min: 10, Run: rulePutOrder,
+		Doc: "a batch handed back with PutVectors is not iterated afterwards (a deferred PutVectors runs at exit), and a step vector that was sent to a worker is recycled only after that worker's GetOutput: in functions that use the worker API every PutStepVector is dominated by a GetOutput call"})
+	mutant(Mutant{Rule: "R-PUTORDER", Name: "batch-recycled-before-loop", File: "execution/aggregate/khashaggregate.go",
+		Old: "\tdefer a.next.GetPool().PutVectors(in)\n\n\targs, err := a.paramOp.Next(ctx)", New: "\ta.next.GetPool().PutVectors(in)\n\n\targs, err := a.paramOp.Next(ctx)", Expect: "kAggregate"})
+	mutant(Mutant{Rule: "R-PUTORDER", Name: "vector-recycled-while-worker-reads", File: "execution/aggregate/hashaggregate.go",
+		Old: "\t\tif err = a.workers[i].Send(a.params[i], vector); err != nil {\n\t\t\treturn nil, err\n\t\t}\n", New: "\t\tif err = a.workers[i].Send(a.params[i], vector); err != nil {\n\t\t\treturn nil, err\n\t\t}\n\t\ta.next.GetPool().PutStepVector(vector)\n", Expect: "aggregate).Next"})
+}
+
+func rulePutOrder(p *core.Program) []core.Obligation {
+	const rule = "R-PUTORDER"
+	var obs []core.Obligation
+	for _, fn := range p.Funcs {
+		usesWorkers := false
+		sentSlices := map[ssa.Value]bool{}
+		var getOutputs []ssa.Instruction
+		core.EachInstr(fn, func(b *ssa.BasicBlock, i int, ins ssa.Instruction) {
+			if cc := core.CallCommon(ins); cc != nil {
+				switch core.CalleeName(cc) {
+				case "(*" + modWorker + ".Worker).Send":
+					usesWorkers = true
+					if sl := elemSliceOf(cc.Args[len(cc.Args)-1]); sl != nil {
+						sentSlices[sl] = true
+					}
+				case "(*" + modWorker + ".Worker).GetOutput":
+					getOutputs = append(getOutputs, ins)
+				}
+			}
+		})
+		k := 0
+		core.EachInstr(fn, func(b *ssa.BasicBlock, i int, ins ssa.Instruction) {
+			call, ok := ins.(*ssa.Call)
+			if !ok {
+				return
+			}
+			switch core.CalleeName(&call.Call) {
+			case "(*" + modModel + ".VectorPool).PutVectors":
+				k++
+				key := fmt.Sprintf("%s hands a batch back #%d", core.FuncName(fn), k)
+				batch := call.Call.Args[1]
+				bad := ""
+				check := func(x ssa.Instruction) {
+					if bad != "" {
+						return
+					}
+					switch y := x.(type) {
+					case *ssa.IndexAddr:
+						if y.X == batch {
+							bad = p.Pos(y.Pos())
+						}
+					case *ssa.Range:
+						if y.X == batch {
+							bad = p.Pos(y.Pos())
+						}
+					case *ssa.Call:
+						if bi, ok := y.Call.Value.(*ssa.Builtin); ok && bi.Name() == "len" && y.Call.Args[0] == batch {
+							// the length of a recycled batch is still its old length: harmless, but loops bounded by it index it
+						}
+					}
+				}
+				for _, x := range b.Instrs[i+1:] {
+					check(x)
+				}
+				// blocks reachable afterwards without passing through the block that (re)defines the batch:
+				// in a loop the next iteration's batch is a new value
+				var defBlock *ssa.BasicBlock
+				if di, ok := batch.(ssa.Instruction); ok {
+					defBlock = di.Block()
+					if ex, ok := batch.(*ssa.Extract); ok {
+						if ti, ok := ex.Tuple.(ssa.Instruction); ok {
+							defBlock = ti.Block()
+						}
+					}
+				}
+				seenB := map[*ssa.BasicBlock]bool{}
+				stack := append([]*ssa.BasicBlock{}, b.Succs...)
+				for len(stack) > 0 {
+					ob := stack[len(stack)-1]
+					stack = stack[:len(stack)-1]
+					if seenB[ob] || ob == defBlock {
+						continue
+					}
+					seenB[ob] = true
+					if ob != b {
+						for _, x := range ob.Instrs {
+							check(x)
+						}
+					}
+					stack = append(stack, ob.Succs...)
+				}
+				if bad != "" {
+					obs = append(obs, core.Ob(rule, key, p.Pos(call.Pos()), core.FuncName(fn), core.Violated, "the batch is indexed at "+bad+" after it was handed back to the pool: the producing operator, running ahead on its own goroutine, reuses the same backing array for its next batch"))
+				} else {
+					obs = append(obs, core.Ob(rule, key, p.Pos(call.Pos()), core.FuncName(fn), core.Held, "not indexed afterwards"))
+				}
+			case "(*" + modModel + ".VectorPool).PutStepVector":
+				if !usesWorkers {
+					return
+				}
+				// only vectors that come from the slice whose elements were sent to the workers
+				if sl := elemSliceOf(call.Call.Args[1]); sl == nil || !sentSlices[sl] {
+					return
+				}
+				k++
+				key := fmt.Sprintf("%s recycles a vector its workers used #%d", core.FuncName(fn), k)
+				okAfter := false
+				for _, g := range getOutputs {
+					if core.InstrDominates(g, call) {
+						okAfter = true
+					}
+				}
+				if okAfter {
+					obs = append(obs, core.Ob(rule, key, p.Pos(call.Pos()), core.FuncName(fn), core.Held, "after the worker's GetOutput"))
+				} else {
+					obs = append(obs, core.Ob(rule, key, p.Pos(call.Pos()), core.FuncName(fn), core.Violated, "a step vector is handed back to the pool before the worker that was sent it has delivered its output: the worker still reads it while the upstream operator refills it"))
+				}
+			}
+		})
+	}
+	return obs
+}
+
 // ---------------------------------------------------------------------------------------------
 // R-RESULTSHAPE
 
@@ -1224,4 +1390,16 @@ func ruleResultShape(p *core.Program) []core.Obligation {
 		}
 	})
 	return obs
+}
+
+// elemSliceOf returns the slice s if v is a load of s[i].
+func elemSliceOf(v ssa.Value) ssa.Value {
+	a := core.Deref(v)
+	if a == nil {
+		return nil
+	}
+	if ia, ok := a.(*ssa.IndexAddr); ok {
+		return ia.X
+	}
+	return nil
 }
